@@ -10,8 +10,9 @@ open Gold Gold.Peg
 
 /-! ### helpers for actions -/
 
-def mk (kind ident : String) (rng : Range) (kids : List Tree) (attrs : List String := []) : Tree :=
-  .node kind ident rng attrs kids
+/-- `sel` = selection range (range of the declared name) for the declaration kinds, else `rng` -/
+def mk (kind ident : String) (rng : Range) (kids : List Tree) (attrs : List String := []) (sel : Option Range := none) : Tree :=
+  .node kind ident rng (sel.getD rng) attrs kids
 
 /-- `AstTerminal::new(token)` -/
 def terminal (t : Tree) : Tree := mk "terminal" t.ident t.rng []
@@ -154,7 +155,7 @@ def foldBin : Nat → Tree → Tree → Tree
 
 def treeDepth : Tree → Nat
   | .leaf _ => 1
-  | .node _ _ _ _ kids => 1 + depthList kids
+  | .node _ _ _ _ _ kids => 1 + depthList kids
 where depthList : List Tree → Nat
   | [] => 0
   | t :: ts => Nat.max (treeDepth t) (depthList ts)
@@ -195,17 +196,17 @@ def gClass : G :=
       let c := v.nth 1; let n := v.nth 2; let p := v.nth 3
       let e := if p.isNone then n.rng else (p.nth 2).rng
       mk "class" n.ident (Range.span c.rng e) []
-        (if p.isNone then [] else ["parent=" ++ (p.nth 1).ident]))
+        (if p.isNone then [] else ["parent=" ++ (p.nth 1).ident]) (some n.rng))
     (seqL [optAnn, .tok Kind.Class, .tok Kind.Identifier, .opt gParentClass])
 
 def gModule : G :=
-  .map (fun v => mk "module" (v.nth 2).ident (Range.span (v.nth 1).rng (v.nth 2).rng) [])
+  .map (fun v => mk "module" (v.nth 2).ident (Range.span (v.nth 1).rng (v.nth 2).rng) [] [] (some (v.nth 2).rng))
     (seqL [optAnn, .tok Kind.Module, .tok Kind.Identifier])
 
 def gConstDecl : G :=
   .map (fun v =>
       let h := v.nth 0
-      mk "const_decl" (h.nth 1).ident (Range.span (h.nth 0).rng (h.nth 3).rng) [])
+      mk "const_decl" (h.nth 1).ident (Range.span (h.nth 0).rng (h.nth 3).rng) [] ["value=" ++ (h.nth 3).ident] (some (h.nth 1).rng))
     (seqL [ .prepend "Cannot parse constant decl: "
               (seqL [.tok Kind.Const, .tok Kind.Identifier, .tok Kind.Equals,
                      toks [Kind.StringLiteral, Kind.NumericLiteral]]),
@@ -229,7 +230,7 @@ def gUses : G :=
 def gTypeDecl : G :=
   .map (fun v =>
       let t := v.nth 1; let ty := v.nth 4
-      mk "type_decl" (v.nth 2).ident ⟨t.rng.s, ty.rng.e⟩ [ty])
+      mk "type_decl" (v.nth 2).ident ⟨t.rng.s, ty.rng.e⟩ [ty] [] (some (v.nth 2).rng))
     (seqL [optAnn, .tok Kind.Type, .tok Kind.Identifier, .tok Kind.Colon, .ref nType])
 
 def gEnumVariant : G :=
@@ -341,7 +342,7 @@ def gGlobalVar : G :=
       let mods := memberModsNode (v.nth 5); let abs := (v.nth 6).nth 1
       let start := if mem.isNone then id.rng else mem.rng
       let e := if abs.isSome then abs.rng else if mods.isSome then mods.rng else ty.rng
-      mk "gvar_decl" id.ident (Range.span start e) ([ty] ++ optList abs) mods.attrs)
+      mk "gvar_decl" id.ident (Range.span start e) ([ty] ++ optList abs) mods.attrs (some id.rng))
     (seqL [optAnn, .opt (.tok Kind.Memory), .tok Kind.Identifier, .tok Kind.Colon, .ref nType,
            .ref nMemberMods, .dep (.opt (.tok Kind.Absolute)) Tree.isSome (.ref nIdentifier)])
 
@@ -386,7 +387,7 @@ def gParamDecl : G :=
       let ty := if c.kind == "#seq" then c.nth 1 else Tree.none
       let start := if md.isNone then id.rng.s else md.rng.s
       mk "param_decl" id.ident ⟨start, if ty.isNone then id.rng.s else ty.rng.e⟩ (optList ty)
-        (if md.isNone then [] else ["modifier=" ++ md.kind]))
+        (if md.isNone then [] else ["modifier=" ++ md.kind]) (some id.rng))
     (seqL [.opt (toks [Kind.Const, Kind.Var, Kind.InOut]), gIdentToken,
            .ifTok [Kind.Colon] (.prepend "Failed parsing parameter decl: " (.ref nType)) (.eps Tree.none)])
 
@@ -428,7 +429,7 @@ def gProc : G :=
       let endTok := if rs.isNone then Tree.none else rs.nth 1
       let body := if rs.isNone then [] else [bodyNode rs endNode]
       mk "proc_decl" name.ident (Range.span first.rng (if endTok.isSome then endTok.rng else endNode.rng))
-        ([name] ++ optList ps ++ body) (methodModsNode (h.nth 3)).attrs)
+        ([name] ++ optList ps ++ body) (methodModsNode (h.nth 3)).attrs (some name.rng))
     (.emit (fun v =>
         let rs := v.nth 1
         if rs.isSome && (rs.nth 1).isNone then some ⟨((v.nth 0).nth 0).rng, "proc end token not found"⟩ else none)
@@ -448,7 +449,7 @@ def gFunc : G :=
       let endTok := if rs.isNone then Tree.none else rs.nth 1
       let body := if rs.isNone then [] else [bodyNode rs endNode]
       mk "func_decl" name.ident (Range.span first.rng (if endTok.isSome then endTok.rng else endNode.rng))
-        ([name, ret] ++ optList ps ++ body) (methodModsNode (h.nth 5)).attrs)
+        ([name, ret] ++ optList ps ++ body) (methodModsNode (h.nth 5)).attrs (some name.rng))
     (.emit (fun v =>
         let rs := v.nth 1
         if rs.isSome && (rs.nth 1).isNone then some ⟨((v.nth 0).nth 0).rng, "func end token not found"⟩ else none)
@@ -539,7 +540,7 @@ def gAssignment : G :=
 /-! #### if -/
 
 /-- events of an if block: statements, `#seq [leaf ElseIf, cond]`, `leaf Else`, `leaf EndIf|End`, `#noend` -/
-def noEnd : Tree := .node "#noend" "" Range.zero [] []
+def noEnd : Tree := .node "#noend" "" Range.zero Range.zero [] []
 
 def gIfLoop : G := .ifEof (.eps (Tree.list [])) (.ref nIfUntil)
 
@@ -587,10 +588,10 @@ def ifFold (acc : IfAcc) (ev : Tree) : IfAcc :=
     else -- Else
       { acc with done := acc.done ++ [condBlock (updRange acc.curRaw acc.cond acc.stmts) acc.cond acc.stmts],
                  curTok := t.rng, curRaw := t.rng, cond := none, stmts := [] }
-  | .node "#seq" _ _ _ [.leaf t, c] =>   -- ElseIf cond
+  | .node "#seq" _ _ _ _ [.leaf t, c] =>   -- ElseIf cond
       { acc with done := acc.done ++ [condBlock (updRange acc.curRaw acc.cond acc.stmts) acc.cond acc.stmts],
                  curTok := t.rng, curRaw := t.rng, cond := some c, stmts := [] }
-  | .node "#noend" _ _ _ _ => acc
+  | .node "#noend" _ _ _ _ _ => acc
   | s => { acc with stmts := acc.stmts ++ [s] }
 
 def gIf : G :=
@@ -710,7 +711,7 @@ def gRepeat : G :=
 def gLocalVar : G :=
   .map (fun v =>
       let vt := v.nth 0; let ty := v.nth 3; let abs := (v.nth 4).nth 1
-      mk "lvar_decl" (v.nth 1).ident (Range.span vt.rng (if abs.isSome then abs.rng else ty.rng)) ([ty] ++ optList abs))
+      mk "lvar_decl" (v.nth 1).ident (Range.span vt.rng (if abs.isSome then abs.rng else ty.rng)) ([ty] ++ optList abs) [] (some (v.nth 1).rng))
     (seqL [.tok Kind.Var, .tok Kind.Identifier, .tok Kind.Colon, .ref nType,
            .dep (.opt (.tok Kind.Absolute)) Tree.isSome (.ref nIdentifier)])
 
